@@ -19,9 +19,9 @@ package schemahelper
 //@   requires blockSchema != nil
 //@   ghost depBody after (schemahelper.blockSchema).DependentBodySchema#1 : depSchema
 //@   ghost depRes after (schemahelper.blockSchema).DependentBodySchema#1 : result
-//@   loop 1 invariant [C07,C12,C16] forallkey(k, depSchema.Attributes, implies(visited(k), haskey(mergedSchema.Attributes, k) && mergedSchema.Attributes[k] == depSchema.Attributes[k]))
-//@   loop 2 invariant [C07,C12,C16] forallkey(k, depSchema.Attributes, haskey(mergedSchema.Attributes, k) && mergedSchema.Attributes[k] == depSchema.Attributes[k])
-//@   loop 2 invariant [C07,C12,C16] forallkey(k, depSchema.Blocks, implies(visited(k), haskey(mergedSchema.Blocks, k)))
+//@   loop 1 invariant [C07,C12,C16,claim] forallkey(k, depSchema.Attributes, implies(visited(k), haskey(mergedSchema.Attributes, k) && mergedSchema.Attributes[k] == depSchema.Attributes[k]))
+//@   loop 2 invariant [C07,C12,C16,claim] forallkey(k, depSchema.Attributes, haskey(mergedSchema.Attributes, k) && mergedSchema.Attributes[k] == depSchema.Attributes[k])
+//@   loop 2 invariant [C07,C12,C16,claim] forallkey(k, depSchema.Blocks, implies(visited(k), haskey(mergedSchema.Blocks, k)))
 //@   ensures [C07,C12,C16] merged != nil && fresh(merged)
 //@   ensures [C07,C12,C16] lookup == depRes
 //@   ensures [C07,C12,C16] implies(depRes == LookupSuccessful || depRes == LookupPartiallySuccessful, forallkey(k, depBody.Attributes, haskey(merged.Attributes, k) && merged.Attributes[k] == depBody.Attributes[k]))
